@@ -581,5 +581,17 @@ pub proof fn L_edge_injective(a: Edge, b: Edge)
     axiom_str_bytes_injective(a.src_entity@, b.src_entity@);
     axiom_str_bytes_injective(a.label@, b.label@);
 }
+//@ obligation L_edge_digest_binds_the_field_boundary props C06 : (known finding F7, expected to fail) without the side condition of L_edge_injective: two references with the same digest input have the same source entity and the same label - false, the boundary between the two names is not delimited, so one signature is valid for ("1.1","23") and for ("1.12","3")
+pub uninterp spec fn nondet_f7() -> bool;
+pub proof fn L_edge_digest_binds_the_field_boundary(a: Edge, b: Edge)
+    requires
+        edge_enc(a) == edge_enc(b),
+        a.verifying_key@.len() == 33, b.verifying_key@.len() == 33,
+    ensures
+        // [edge_digest_binds_the_boundary_between_entity_and_label]
+        nondet_f7() ==> a.src_entity@ == b.src_entity@ && a.label@ == b.label@,
+{
+}
+
 } // verus!
 fn main() {}
